@@ -445,6 +445,29 @@ def encode_message(mtype, serial, fields, body_sig='', body=(), little=True,
     return hdr + b'\0' * padn + bodyb
 
 
+def encode_variant(k, mtype, serial, fields, body_sig='', body=(), little=True, flags=0):
+    """The same message in one of four spellings a conforming peer may choose (k % 4): 0 canonical (fields by ascending
+    code); 1 a header field with a code unknown to this implementation FIRST; 2 fields in descending order with an
+    unknown field in the middle; 3 an unknown variant-typed field second, plus flag bit 0x4
+    (ALLOW_INTERACTIVE_AUTHORIZATION).  Receivers must ignore unknown fields and flag bits; field order is free."""
+    k %= 4
+    if k == 0:
+        return encode_message(mtype, serial, fields, body_sig, body, little, flags)
+    n = len(fields) + (1 if body_sig and 8 not in fields else 0) + 1
+    if k == 1:
+        extra = [(0x20, 's', 'some-extension')]
+        order = [n - 1] + list(range(n - 1))
+    elif k == 2:
+        extra = [(0x7f, 'u', 7)]
+        rev = list(range(n - 2, -1, -1))
+        order = rev[:len(rev) // 2] + [n - 1] + rev[len(rev) // 2:]
+    else:
+        extra = [(0x0a, 'v', ['ay', [1, 2]])]
+        order = [0, n - 1] + list(range(1, n - 1))
+        flags |= 0x4
+    return encode_message(mtype, serial, fields, body_sig, body, little, flags, order, extra)
+
+
 def decode_message(raw, strict=True):
     """Strict decoder for one complete message.  Returns a dict."""
     if len(raw) < 16:
